@@ -219,6 +219,10 @@ trait MK: Marker + Send + Sync + 'static {
     /// cloned). Its maintenance rebuilds it from the world it is in, so nothing of the earlier world may show (C20).
     fn stash(_world: &mut World) {}
     fn unstash(_world: &mut World) {}
+    /// literal `load` records can be written in this marker's format (ids as plain numbers)
+    const LITERAL: bool = false;
+    /// an application-level change of the marked entity `e` (marker kinds that carry a revision next to the id)
+    fn touch(_world: &World, _e: Entity) {}
 }
 
 /// Parses `SimpleMarkerAllocator { index: 2, mapping: {1: Entity(1, Generation(1)), ..}, _phantom_data: .. }`.
@@ -253,6 +257,7 @@ fn parse_simple_alloc(dbg: &str) -> (u64, Vec<(u64, u32, i32)>) {
 
 impl MK for SM {
     const UUID: bool = false;
+    const LITERAL: bool = true;
     fn setup(world: &mut World) {
         world.register::<SM>();
         // every world of the process gets a CLONE of one pristine allocator (the pattern of the crate's own test): a clone
@@ -276,6 +281,59 @@ impl MK for SM {
     fn idx_hint(world: &World, _: &Vec<String>) -> u64 {
         let dbg = format!("{:?}", *world.read_resource::<SimpleMarkerAllocator<Tag>>());
         parse_simple_alloc(&dbg).0
+    }
+}
+
+/// A user-defined marker as in the crate's documentation (`NetMarker { id, seq }`): an id plus data that is NOT part of the
+/// identity (a revision counter, bumped by the application whenever the entity changes; `update` takes the loaded one).
+/// `==` compares both fields. The allocator mirrors `SimpleMarkerAllocator` and uses the trait's default
+/// `retrieve_entity` / `mark`.
+#[derive(Clone, Debug, PartialEq, Eq, Hash, Serialize, Deserialize)]
+pub struct NetM { id: u64, rev: u64 }
+impl Component for NetM { type Storage = DenseVecStorage<Self>; }
+impl Marker for NetM {
+    type Identifier = u64;
+    type Allocator = NetAlloc;
+    fn id(&self) -> u64 { self.id }
+    fn update(&mut self, new_revision: Self) { self.rev = new_revision.rev; }
+}
+#[derive(Clone, Debug, Default)]
+pub struct NetAlloc { index: u64, mapping: std::collections::HashMap<u64, Entity> }
+impl MarkerAllocator<NetM> for NetAlloc {
+    fn allocate(&mut self, entity: Entity, id: Option<u64>) -> NetM {
+        let marker = if let Some(id) = id {
+            if id >= self.index { self.index = id + 1; }
+            NetM { id, rev: 0 }
+        } else {
+            self.index += 1;
+            NetM { id: self.index - 1, rev: 0 }
+        };
+        self.mapping.insert(marker.id(), entity);
+        marker
+    }
+    fn retrieve_entity_internal(&self, id: u64) -> Option<Entity> { self.mapping.get(&id).cloned() }
+    fn maintain(&mut self, entities: &specs::world::EntitiesRes, storage: &ReadStorage<NetM>) {
+        self.mapping = (entities, storage).join().map(|(e, m)| (m.id(), e)).collect();
+    }
+}
+impl MK for NetM {
+    const UUID: bool = false;
+    fn setup(world: &mut World) {
+        world.register::<NetM>();
+        world.insert(NetAlloc::default());
+    }
+    fn mid(&self, _: &mut Vec<String>) -> u64 { self.id }
+    fn alloc_dump(world: &World) -> (String, String) {
+        let dbg = format!("{:?}", *world.read_resource::<NetAlloc>());
+        let (idx, map) = parse_simple_alloc(&dbg);
+        let m = if map.is_empty() { "-".to_string() } else { map.iter().map(|(k, i, g)| format!("{}={}:{}", k, i, g)).collect::<Vec<_>>().join(",") };
+        (idx.to_string(), m)
+    }
+    fn idx_hint(world: &World, _: &Vec<String>) -> u64 {
+        parse_simple_alloc(&format!("{:?}", *world.read_resource::<NetAlloc>())).0
+    }
+    fn touch(world: &World, e: Entity) {
+        if let Some(m) = world.write_storage::<NetM>().get_mut(e) { m.rev += 1; }
     }
 }
 
@@ -446,7 +504,7 @@ enum EV {
 
 #[derive(Clone, Debug, PartialEq)]
 enum Op {
-    /// app: 0 = ids from the allocator, 1 = `uuidapp`, 2 = `uuidreg`
+    /// app: 0 = ids from the allocator, 1 = `uuidapp`, 2 = `uuidreg`, 3 = `net` (user-defined marker with a revision; uuid = false)
     Cfg { uuid: bool, ron: bool, app: u8 },
     Create(usize, bool),
     SetP(usize, usize, Option<i32>),
@@ -480,7 +538,7 @@ fn wn(w: usize) -> &'static str {
 fn show_op(op: &Op) -> String {
     match op {
         Op::UnitRoundtrip => "unit_roundtrip".to_string(),
-        Op::Cfg { uuid, ron, app } => format!("cfg {} {}", if *uuid { ["uuid", "uuidapp", "uuidreg"][*app as usize] } else { "simple" }, if *ron { "ron" } else { "json" }),
+        Op::Cfg { uuid, ron, app } => format!("cfg {} {}", if *uuid { ["uuid", "uuidapp", "uuidreg"][*app as usize] } else if *app == 3 { "net" } else { "simple" }, if *ron { "ron" } else { "json" }),
         Op::Create(w, atomic) => format!("create {} {}", wn(*w), if *atomic { "atomic" } else { "now" }),
         Op::SetP(w, k, Some(v)) => format!("setp {} @{} {}", wn(*w), k, v),
         Op::SetP(w, k, None) => format!("setp {} @{} -", wn(*w), k),
@@ -532,8 +590,8 @@ fn parse_op(line: &str) -> Option<Op> {
     Some(match ts.as_slice() {
         ["unit_roundtrip"] => Op::UnitRoundtrip,
         ["cfg", m, f] => Op::Cfg {
-            uuid: match *m { "simple" => false, "uuid" | "uuidapp" | "uuidreg" => true, _ => return None },
-            app: match *m { "uuidapp" => 1, "uuidreg" => 2, _ => 0 },
+            uuid: match *m { "simple" | "net" => false, "uuid" | "uuidapp" | "uuidreg" => true, _ => return None },
+            app: match *m { "uuidapp" => 1, "uuidreg" => 2, "net" => 3, _ => 0 },
             ron: match *f { "json" => false, "ron" => true, _ => return None },
         },
         ["create", w, "now"] => Op::Create(pw(w)?, false),
@@ -771,6 +829,7 @@ impl<M: MK> Exec<M> {
             }
             Op::SetP(w, k, v) => {
                 let e = match self.resolve(*w, *k) { Some(e) => e, None => return "skip".into() };
+                M::touch(&self.worlds[*w], e);
                 let mut st = self.worlds[*w].write_storage::<P>();
                 match v {
                     Some(v) => res_ins(st.insert(e, P(*v))),
@@ -890,7 +949,7 @@ impl<M: MK> Exec<M> {
                 self.load_text(*w, &text)
             }
             Op::Load(w, recs) => {
-                if M::UUID { return "skip".into(); }
+                if !M::LITERAL { return "skip".into(); }
                 let json = recs_to_json(recs);
                 let text = if self.ron {
                     let data = serde_json::from_str::<Recs<M>>(&json).unwrap_or_else(|e| harness_bug(format!("bad literal JSON `{}`: {}", json, e)));
@@ -958,7 +1017,7 @@ fn make_runner(uuid: bool, ron: bool, app: u8) -> Box<dyn Runner> {
         e.app_ids = app;
         if app == 2 { UuidMarker::unstash(&mut e.worlds[0]); }
         Box::new(e)
-    } else { Box::new(Exec::<SM>::new(ron)) }
+    } else if app == 3 { Box::new(Exec::<NetM>::new(ron)) } else { Box::new(Exec::<SM>::new(ron)) }
 }
 
 /// Unit-struct component (serialises as serde's unit struct).
@@ -1081,7 +1140,8 @@ fn shuffle<T>(rng: &mut Rng, v: &mut Vec<T>) {
 /// Round-trip case: a small world A with reference structure, then the fixed probe tail.
 fn gen_rt(rng: &mut Rng) -> Vec<Op> {
     let uuid = rng.chance(1, 3);
-    let mut ops = vec![Op::Cfg { uuid, ron: rng.chance(1, 2), app: (uuid && rng.chance(1, 2)) as u8 }];
+    let net = !uuid && rng.chance(1, 4);
+    let mut ops = vec![Op::Cfg { uuid, ron: rng.chance(1, 2), app: if net { 3 } else { (uuid && rng.chance(1, 2)) as u8 } }];
     let mut nlog = 0usize;
     let mut live: Vec<usize> = Vec::new();
     let mut dead: Vec<usize> = Vec::new();
@@ -1222,12 +1282,13 @@ fn gen_load_recs(rng: &mut Rng, idx: u64) -> Vec<Rec> {
 fn gen_hist(rng: &mut Rng, maxlen: usize, h: &mut Harness, out: &mut String, det: bool) {
     let uuid = rng.chance(3, 20);
     let uuid = uuid || (det && rng.chance(1, 4));
-    let app = if !uuid { 0 } else if det && rng.chance(1, 2) { 2 } else { rng.chance(1, 2) as u8 };
+    let net = !uuid && rng.chance(1, 5);
+    let app = if net { 3 } else if !uuid { 0 } else if det && rng.chance(1, 2) { 2 } else { rng.chance(1, 2) as u8 };
     h.step(&Op::Cfg { uuid, ron: rng.chance(1, 2), app }, out);
     let len = rng.range(3, maxlen.max(3) as u64) as usize;
     let w_maint = *rng.pick(&[3u32, 6, 10]);
     let w_del = *rng.pick(&[2u32, 4, 7]);
-    let w_load = if uuid { 0 } else { *rng.pick(&[3u32, 7, 10]) };
+    let w_load = if uuid || net { 0 } else { *rng.pick(&[3u32, 7, 10]) };
     let w_de = *rng.pick(&[6u32, 10]);
     let mut pending: VecDeque<Op> = VecDeque::new();
     let mut last_load: Option<Op> = None;
@@ -1249,7 +1310,7 @@ fn gen_hist(rng: &mut Rng, maxlen: usize, h: &mut Harness, out: &mut String, det
             let mut choice = if count < warm { rng.weighted(&warm_ws) } else { rng.weighted(&ws) };
             // avoid wasting ops on `skip`: an empty log wants a creation, an empty slot table wants data
             if n == 0 && matches!(choice, 2..=9) && !rng.chance(1, 8) { choice = rng.below(2) as usize; }
-            if h.runner.nslots() == 0 && choice == 14 && !rng.chance(1, 8) { choice = if uuid || rng.chance(1, 2) { 12 } else { 15 }; }
+            if h.runner.nslots() == 0 && choice == 14 && !rng.chance(1, 8) { choice = if uuid || net || rng.chance(1, 2) { 12 } else { 15 }; }
             match choice {
                 0 => Op::Create(w, false),
                 1 => Op::Create(w, true),
